@@ -5,6 +5,7 @@ import (
 	"bytes"
 	"fmt"
 	"io/fs"
+	"math"
 	"os"
 	"path/filepath"
 	"regexp"
@@ -66,6 +67,8 @@ func processFile(filePath string, version string, year string) error {
 func updateRules(version string, year string, contents []byte) ([]byte, error) {
 	scanner := bufio.NewScanner(bytes.NewReader(contents))
 	scanner.Split(bufio.ScanLines)
+	// lines can be longer than the scanner's default limit of 64 KiB
+	scanner.Buffer(nil, math.MaxInt)
 	output := new(bytes.Buffer)
 	writer := bufio.NewWriter(output)
 	replaceVersion := fmt.Sprintf("${1}%s", version)
